@@ -9,6 +9,7 @@ import (
 	"bytes"
 	"fmt"
 	"os"
+	"os/exec"
 	"path/filepath"
 	"regexp"
 	"strings"
@@ -100,6 +101,11 @@ func streamRepeat() {
 	for _, t := range []string{"C[1] R[1", "C[1] ]", "", "C[1]{txt=a,lic=b,mrk=c,zzz=d,aaa=e}", "C[1]{key=Am} E7[1]{key=C}"} {
 		add(repeatCase{kind: "text-parse", args: []string{"text", "parse"}, stdin: []byte(t), readsInput: true})
 		add(repeatCase{kind: "text-conv-syllable", args: []string{"text", "conv", "syllable"}, stdin: []byte(t), readsInput: true, conv: &convCase{"syllable", "", []byte(t)}})
+	}
+	// empty input for every command that reads one
+	for _, a := range [][]string{{"text", "parse"}, {"text", "conv", "syllable"}, {"text", "conv", "degree"}, {"write"}, {"write", "event"},
+		{"write", "conv", "-c", "cmt"}, {"write", "parse"}} {
+		add(repeatCase{kind: "empty-input", args: a, readsInput: true})
 	}
 	// instances
 	for i := 0; i < pick(60, 1200); i++ {
@@ -232,6 +238,21 @@ func streamRepeat() {
 				report("with -o FILE something is still printed on stdout", "-o FILE", fmt.Sprintf("stdout=%q", trunc(so)))
 			case cl != "ok" && len(out) != 0:
 				report("a failing command left bytes in the -o file", "-o FILE", fmt.Sprintf("file=%q", trunc(out)))
+			}
+		}
+		if c.readsInput && len(c.stdin) == 0 {
+			// empty input: a pipe that is closed at once, and stdin connected to /dev/null (cron, CI, exec without stdin)
+			cmd := exec.Command(crdBin, c.args...)
+			cmd.Stdin = nil
+			var so, se bytes.Buffer
+			cmd.Stdout, cmd.Stderr = &so, &se
+			err := cmd.Run()
+			cl := "ok"
+			if err != nil {
+				cl = "err"
+			}
+			if cl != bclass || !bytes.Equal(so.Bytes(), base.stdout) {
+				report("the result differs when stdin is /dev/null instead of an empty pipe", "</dev/null", fmt.Sprintf("class %s vs %s; stdout %q vs %q; stderr %q", bclass, cl, trunc(base.stdout), trunc(so.Bytes()), trunc(se.Bytes())))
 			}
 		}
 		if bclass == "ok" {
